@@ -416,7 +416,7 @@ def check_C16(ctx):
 def lit_sort_key(kind, text):
     if kind == 'long': return int(text)
     if kind == 'double': return float(text)
-    if kind == 'string': return text.lower().encode()
+    if kind == 'string': return text.lower().encode() if text.isascii() else None
     if kind == 'version': return tuple(int(x) for x in text.split('.'))
 
 def right_sx(kind, text):
@@ -433,8 +433,9 @@ def check_C18(ctx):
                  INT_ATTRS + FLOAT_ATTRS + [ABSENT, S('1'), ('nil',), ('b', True)]),
         'double': (['-1.0e19', '-1.0', '-0.5', '0.0', '0.1', '0.30000000000000004', '1.0', '1.5', '1.7', '2.0', '2.5', '100.0', '9007199254740993.0', '1.0e19', '1.0e308'],
                    [a for a in INT_ATTRS if a[0] == 'i'] + FLOAT_ATTRS + [('i64', 1), ABSENT, S('1.5'), ('nil',)]),
-        'string': (['', ' ', 'A', 'ab', 'ABC', 'abd', 'b', 'B c'],
-                   [S(x) for x in ['', 'abc', 'ABC', 'aBc', 'ab', 'b', 'a', ' ', 'abd', 'B']] + [('str', b'abc'), ABSENT, I(1), ('nil',), ('o', 8)]),
+        'string': (['', ' ', 'A', 'ab', 'ABC', 'abd', 'b', 'B c', 's', 'S', 't', 'k', 'i', '\u03c3', '\u03bc', 'ss', '\u017f', '\u03c2'],
+                   [S(x) for x in ['', 'abc', 'ABC', 'aBc', 'ab', 'b', 'a', ' ', 'abd', 'B', '\u017f', 's', '\u03c2', '\u03a3', '\u03c3',
+                                   '\u212a', 'K', '\u0130', 'I', '\u00b5', '\u039c', 'stra\u017f\u017fe', '\u00df', '\u1e9e']] + [('str', b'abc'), ABSENT, I(1), ('nil',), ('o', 8)]),
         'version': (['0.0.0', '1.0.0', '1.0.1', '1.9.0', '1.10.0', '2.0.0', '10.2.33', '18446744073709551615.0.0'],
                     VER_ATTRS + [ABSENT, I(1), ('str', b'1.0.0'), ('nil',)]),
     }
@@ -486,6 +487,7 @@ def check_C18(ctx):
                     ctx.violation('%s: ne/le/ge are not derived from lt/eq/gt: %s' % (src, v), cl)
             by_attr.setdefault((src, kind, val_sx(a) if a != ABSENT else 'absent'), []).append((lit, v, cases))
     for (src, kind, _), rows in by_attr.items():
+        rows = [r for r in rows if lit_sort_key(kind, r[0]) is not None]
         rows.sort(key=lambda r: lit_sort_key(kind, r[0]))
         for i in range(len(rows) - 1):
             (l1, v1, c1), (l2, v2, c2) = rows[i], rows[i + 1]
@@ -674,7 +676,11 @@ LAW_LEAVES = ['t pr', 'zz pr', 'k gt null', 'k co 1', 'k eq 1', 'k eq 2', 'zz eq
 LAW_OBJ = {'t': I(1), 'k': I(1), 's': S('v'), 'p': ('strpanic',)}
 
 def law_pairs(A, B, C):
-    P = lambda x: '(%s)' % x
+    def P(x):
+        # an atomic operand needs no parentheses (and the law must hold for the bare form too)
+        if ' and ' in x or ' or ' in x or '\n' in x:
+            return '(%s)' % x
+        return x
     return [
         ('double negation', 'not (not (%s))' % A, A, None),
         ('De Morgan and', 'not (%s and %s)' % (P(A), P(B)), 'not (%s) or not (%s)' % (A, B), None),
@@ -701,6 +707,17 @@ def check_C17(ctx):
         for B in atoms:
             for C in (atoms if not ctx.quick else ['t pr', 'zz pr', 'k gt null']):
                 add(A, B, C, objs[0], 'law-atomic')
+    # compound operands over a small alphabet {T, F, fail, decided-by-value}: every A = (a1 op a2), B, C atomic,
+    # and the mirrored placements (compound in B or in C) -- a law may only break when an operand is itself compound
+    small = ['t pr', 'zz pr', 'k gt null', 'k eq 1', 'p eq "a"']
+    comp = ['(%s %s %s)' % (a1, op, a2) for a1 in small for a2 in small for op in ('and', 'or')] + ['not (%s)' % a for a in small]
+    pick = comp if not ctx.quick else ctx.rng.sample(comp, 24)
+    for X in pick:
+        for Y in small:
+            for Z in small:
+                add(X, Y, Z, objs[0], 'law-compound')
+                add(Y, X, Z, objs[0], 'law-compound')
+                add(Y, Z, X, objs[0], 'law-compound')
     # random sub-rules
     for _ in range(ctx.n(400, 12000)):
         subs, infos = [], []
